@@ -11,8 +11,9 @@ actual_i <= declared_i and that every stage supports the problem it receives.
 """
 import itertools
 import signal
+import time
 
-from harness.core import gn, glist, gopt, gpair, gstr
+from harness.core import gn, gnat, glist, gopt, gpair, gstr
 from harness.props.c33 import run_translator
 from harness.props import c32
 
@@ -79,6 +80,31 @@ def generated_problems():
     except Exception:
         pass
     try:
+        # an object fluent used only as an argument: the input kind has OBJECT_FLUENTS but neither EQUALITIES nor quantifiers
+        from unified_planning.shortcuts import Fluent, InstantaneousAction, UserType, Object, BoolType, Problem
+        Loc = UserType("Loc")
+        p = Problem("gen_object_fluent")
+        at = Fluent("at", Loc)
+        visited = Fluent("visited", BoolType(), l=Loc)
+        l1, l2 = Object("l1", Loc), Object("l2", Loc)
+        p.add_objects([l1, l2])
+        p.add_fluent(at, default_initial_value=l1)
+        p.add_fluent(visited, default_initial_value=False)
+        mv = InstantaneousAction("mv", to=Loc)
+        mv.add_effect(at, mv.parameter("to"))
+        mv.add_effect(visited(mv.parameter("to")), True)
+        ok = Fluent("ok")
+        p.add_fluent(ok, default_initial_value=False)
+        mark = InstantaneousAction("mark")
+        mark.add_precondition(visited(at))
+        mark.add_effect(ok, True)
+        p.add_action(mv)
+        p.add_action(mark)
+        p.add_goal(ok)
+        out[p.name] = p
+    except Exception:
+        pass
+    try:
         from unified_planning.test.examples import multi_agent
         for k, e in multi_agent.get_example_problems().items():
             out["ma:" + k] = e.problem
@@ -108,13 +134,16 @@ def g_set(ids):
 
 
 def g_skind(s):
-    return gpair(g_set(s[0]), gopt(None if s[1] is None else gn(s[1])))
+    """(bitmask of the feature numbers, version)"""
+    return gpair(gn(sum(1 << i for i in s[0])), gopt(None if s[1] is None else gn(s[1])))
 
 
 def run(ctx):
     tr1 = run_translator(ctx, "gen_kind.py")
     tr2 = run_translator(ctx, "gen_engines.py")
+    phase, t0 = {}, time.time()
     ok_proofs = ctx.check_props(extra=["theories/Corr/Corr_C09.v"])
+    phase["proofs"] = round(time.time() - t0, 1); t0 = time.time()
     I = c32.Impl()
     rng = ctx.rng
     up = I.up
@@ -127,6 +156,8 @@ def run(ctx):
     compilers = [n for n in registered if factory.engine(n).is_compiler()]
     classes = {n: factory.engine(n) for n in registered}
     rev = {c: n for n, c in classes.items()}
+    eidx = {n: i for i, n in enumerate(registered)}
+    pre_names = "Definition ENG := %s.\n" % glist([gstr(n) for n in registered])
     budget = 2.0 if ctx.quick else 10.0
 
     def feats_minus(a, b):
@@ -166,14 +197,16 @@ def run(ctx):
                 rec = {"compiler": n, "ck": ck, "problem": k, "in": I.spec_of(p.kind), "out": I.spec_of(q.kind), "declared": I.spec_of(declared),
                        "undeclared": feats_minus(q.kind, declared)}
                 craw.append(rec)
-                ccases.append("{| cc_engine := %s; cc_ck := %s; cc_in := %s; cc_out := %s; cc_declared := %s |}" % (
-                    gstr(n), gn(ck), g_skind(rec["in"]), g_skind(rec["out"]), g_skind(rec["declared"])))
+                ccases.append("(Build_ccase %s %s %s %s %s)" % (
+                    gnat(eidx[n]), gn(ck), g_skind(rec["in"]), g_skind(rec["out"]), g_skind(rec["declared"])))
                 stats["compiler_runs"] += 1
                 stats["runs_where_declared_differs_from_input"] += rec["declared"] != rec["in"]
                 stats["runs_where_compiled_differs_from_input"] += rec["out"] != rec["in"]
                 done += 1
         stats["per_compiler"][n] = done
-    cbad = ctx.coq_failing(ccases, "cc_ok", imports=IMPORTS, shard=max(1, (len(ccases) + 1) // 2))
+    phase["compile_runs"] = round(time.time() - t0, 1); t0 = time.time()
+    cbad = ctx.coq_failing(ccases, "cc_ok ENG", imports=IMPORTS, preamble=pre_names, shard=max(1, (len(ccases) + 1) // 2))
+    phase["coq_compilers"] = round(time.time() - t0, 1); t0 = time.time()
     groups = {}
     for i in cbad:
         r = craw[i]
@@ -181,7 +214,7 @@ def run(ctx):
             for f in r["undeclared"]:
                 groups.setdefault((r["compiler"], f), []).append(r)
         else:
-            parts = ctx.coq_show("cc_parts c", imports=IMPORTS, preamble="Definition c := %s.\n" % ccases[i])
+            parts = ctx.coq_show("cc_parts ENG c", imports=IMPORTS, preamble=pre_names + "Definition c := %s.\n" % ccases[i])
             ctx.fail("corr", "compiler %s on %s: Coq and the implementation disagree although kind(compiled) <= declared "
                      "(parts: is compiler for ck, supports input, translated program = executed declaration, inclusion): %s" % (
                          r["compiler"], r["problem"], parts[:120]),
@@ -200,6 +233,7 @@ def run(ctx):
                          "kind_compiled": [I.names[i] for i in rs[0]["out"][0]], "kind_declared": [I.names[i] for i in rs[0]["declared"][0]]},
              "theorem_or_corr": "corr:C09:kind(compiled)<=declared"}, True)
 
+    phase["diagnose_compilers"] = round(time.time() - t0, 1); t0 = time.time()
     # ------------------------------------------------------------------ factory pipelines
     offered = sorted(set(i for n in compilers for i, ck in enumerate(I.CK) if classes[n].supports_compilation(ck)))
     maxlen = 2 if ctx.quick else 3
@@ -265,17 +299,19 @@ def run(ctx):
         if "fail" in rec:
             obs = "(PNotBuilt %s)" % rec["fail"]
         elif "final" in rec:
-            obs = "(PBuilt %s %s %s)" % (glist([gstr(n) for n in rec["names"]]), glist([g_skind(a) for a in rec["actual"]]), g_skind(rec["final"]))
+            obs = "(PBuilt %s %s %s)" % (glist([gnat(eidx[n]) for n in rec["names"]]), glist([g_skind(a) for a in rec["actual"]]), g_skind(rec["final"]))
         else:
-            obs = "(PChosen %s)" % glist([gstr(n) for n in rec["names"]])
-        pcases.append("{| pc_registered := %s; pc_prefs := %s; pc_cks := %s; pc_kind := %s; pc_obs := %s |}" % (
+            obs = "(PChosen %s)" % glist([gnat(eidx[n]) for n in rec["names"]])
+        pcases.append("(Build_pcase %s %s %s %s %s)" % (
             "REG", "PREFS", g_set(rec["cks"]), g_skind(rec["kind"]), obs))
-    pre = "Definition REG := %s.\nDefinition PREFS := %s.\n" % (glist([gstr(n) for n in registered]), glist([gstr(n) for n in prefs]))
-    pbad = ctx.coq_failing(pcases, "pc_ok", imports=IMPORTS, preamble=pre, shard=max(1, (len(pcases) + 1) // 2))
+    pre = pre_names + "Definition REG := %s.\nDefinition PREFS := %s.\n" % (glist([gstr(n) for n in registered]), glist([gstr(n) for n in prefs]))
+    phase["pipelines_python"] = round(time.time() - t0, 1); t0 = time.time()
+    pbad = ctx.coq_failing(pcases, "pc_ok ENG", imports=IMPORTS, preamble=pre, shard=max(1, (len(pcases) + 1) // 2))
+    phase["coq_pipelines"] = round(time.time() - t0, 1); t0 = time.time()
     pgroups = {}
     for i in pbad:
         rec = praw[i]
-        parts = ctx.coq_show("pc_parts c", imports=IMPORTS, preamble=pre + "Definition c := %s.\n" % pcases[i]) if len(pgroups) < 6 else ""
+        parts = ctx.coq_show("pc_parts ENG c", imports=IMPORTS, preamble=pre + "Definition c := %s.\n" % pcases[i]) if len(pgroups) < 6 else ""
         culprit = None
         if "final" in rec:
             # which stage produced a kind outside the declared one?  replay the declarations with the classes themselves
@@ -322,6 +358,7 @@ def run(ctx):
         "distribution": {"compilers": stats, "pipelines": pstats},
         "undeclared_feature_groups": sorted("%s:%s" % g for g in groups),
         "translators_ok": [tr1, tr2],
+        "phase_seconds": phase,
         "exhaustive": False,
         "trusted_extra": ["tools/gen_engines.py, tools/gen_kind.py", "Problem.kind is taken as the kind of a problem (C10)"],
     }, "proof", assumptions=["(ii) is validated on the example problems and generated ones, not proved",
